@@ -263,6 +263,10 @@ def check(case):
         if items != list(range(first, last + 1)):
             return 'order', '%r displayed %r' % (case, items)
         step = int(rows[-1][1])
+    if size >= 1:
+        # a requested size is the look-ahead of the statement, whatever
+        # step the implementation reports for the window
+        step = size
     bound = last + step + orphan
     # elements actually produced (a probe that runs off the end of a
     # bounded sequence produces nothing)
